@@ -3,8 +3,7 @@
      dec_col  mirrors the `match binary_type { … match canonical_type { … } }` of decode_prop_chunk
               (deserializer/state.rs)
    arm by arm, with the Rust text in comments.  One column = the values of one property for all the
-   instances of one class, in INST order.  The code is modelled AS IT IS in the working tree (including
-   the reversed Content object deque); behaviour before a repair survives only under `_pinned` names
+   instances of one class, in INST order.  The code is modelled AS IT IS in the working tree ); behaviour before a repair survives only under `_pinned` names
    where a refutation witness is stated about it.
    Outcomes: `Ok`, `Err code` (the enum below), `Panic` (unwrap / expect / panic! / index).
    Allocations whose size is read from the input (`Vec::with_capacity(len)`, `vec![0; count]`) go
@@ -435,7 +434,9 @@ Definition dec_vec3_arrays (n : nat) : parser (list vec3) :=
   x <== dec_f32_array n ;; y <== dec_f32_array n ;; z <== dec_f32_array n ;;
   pret (List.map (fun p => mkV3 (fst (fst p)) (snd (fst p)) (snd p)) (zip (zip x y) z)).
 
-(* VecDeque::pop_back on the list representation (head = front) *)
+(* VecDeque::pop_front / pop_back on the list representation (head = front) *)
+Definition pop_front {A} (l : list A) : option (A * list A) :=
+  match l with [] => None | x :: r => Some (x, r) end.
 Definition pop_back {A} (l : list A) : option (A * list A) :=
   match rev l with [] => None | x :: r => Some (x, rev r) end.
 
@@ -458,7 +459,7 @@ Fixpoint content_values (c : dec_ctx) (tys : list Z) (uris : list bytes) (object
                | None => Err E_INVALID_DATA
                | Some (u, uris') => r <- content_values c rest uris' objects ;; Ok (VContent (CUri u) :: r)
                end
-      | 2%Z => match pop_back objects with                              (* objects.pop_back().ok_or_else(InvalidPropData)? *)
+      | 2%Z => match pop_front objects with                             (* objects.pop_front().ok_or_else(InvalidPropData)? *)
                | None => Err E_INVALID_DATA
                | Some (o, objects') =>
                    r <- content_values c rest uris objects' ;; Ok (VContent (CObject (dc_resolve c o)) :: r)
@@ -467,7 +468,41 @@ Fixpoint content_values (c : dec_ctx) (tys : list Z) (uris : list bytes) (object
       end
   end.
 
+(* the same loop before repair 55a7c594 (object referents popped from the BACK of the deque); kept for
+   content_object_order_refuted *)
+Fixpoint content_values_pinned (c : dec_ctx) (tys : list Z) (uris : list bytes) (objects : list Z) : res (list value) :=
+  match tys with
+  | [] => Ok []
+  | ty :: rest =>
+      match ty with
+      | 0%Z => r <- content_values_pinned c rest uris objects ;; Ok (VContent CNone :: r)
+      | 1%Z => match pop_back uris with                                 (* uris.pop_back().ok_or_else(InvalidPropData)? *)
+               | None => Err E_INVALID_DATA
+               | Some (u, uris') => r <- content_values_pinned c rest uris' objects ;; Ok (VContent (CUri u) :: r)
+               end
+      | 2%Z => match pop_back objects with                              (* objects.pop_back().ok_or_else(InvalidPropData)? *)
+               | None => Err E_INVALID_DATA
+               | Some (o, objects') =>
+                   r <- content_values_pinned c rest uris objects' ;; Ok (VContent (CObject (dc_resolve c o)) :: r)
+               end
+      | _ => Err E_CONTENT_TYPE
+      end
+  end.
+
 Definition sec_bits (z : Z) : N := wrap_u 64 z.        (* value as u64 *)
+
+(* the lazily evaluated tail of the OptionalCFrame arm: one marker byte per value; a missing byte gives None *)
+Fixpoint ocf_values (l : list (vec3 * mat3)) (b : bytes) : list value * bytes :=
+  match l with
+  | [] => ([], b)
+  | (p, r) :: rest =>
+      match b with
+      | [] => let '(vs, b') := ocf_values rest [] in (VOptionalCFrame None :: vs, b')
+      | x :: b1 =>
+          let '(vs, b') := ocf_values rest b1 in
+          (VOptionalCFrame (if N.eqb x 0 then None else Some (mkCF p r)) :: vs, b')
+      end
+  end.
 
 (* self.shared_strings.get(value as usize) for every value; None = the first miss (InvalidPropData) *)
 Definition sstr_get (tbl : list bytes) (v : N) : option bytes :=
@@ -480,6 +515,15 @@ Fixpoint sstr_values (tbl : list bytes) (vs : list N) : option (list value) :=
               | None => None
               end
   end.
+
+(* the body of the Color3uint8 arm *)
+Definition dec_color3uint8_body (n : nat) : parser (list value) :=
+  r <== read_exact n ;; g <== read_exact n ;; b <== read_exact n ;;
+  pret (List.map (fun p => VColor3uint8 (fst (fst p)) (snd (fst p)) (snd p)) (zip (zip r g) b)).
+(* the arm before repair 459caf55: only a property declared Color3 was accepted; kept for
+   color3uint8_unknown_property_refuted *)
+Definition dec_color3uint8_pinned (cty : N) (n : nat) : parser (list value) :=
+  if N.eqb cty VT_Color3 then dec_color3uint8_body n else tmismatch.
 
 Definition dec_col (ty : wire_type) (cty : N) (c : dec_ctx) (n : nat) : parser (list value) :=
   let lim := dc_lim c in
@@ -621,9 +665,8 @@ Definition dec_col (ty : wire_type) (cty : N) (c : dec_ctx) (n : nat) : parser (
                    else pret (VPhysicalProperties None))
       else tmismatch
   | WColor3uint8 =>
-      if N.eqb cty VT_Color3 then                                       (* as pinned: accepts only a Color3-typed property *)
-        r <== read_exact n ;; g <== read_exact n ;; b <== read_exact n ;;
-        pret (List.map (fun p => VColor3uint8 (fst (fst p)) (snd (fst p)) (snd p)) (zip (zip r g) b))
+      if N.eqb cty VT_Color3 || N.eqb cty VT_Color3uint8 then           (* VariantType::Color3 | VariantType::Color3uint8 *)
+        dec_color3uint8_body n
       else tmismatch
   | WInt64 =>
       if N.eqb cty VT_Int64 then vs <== dec_i64_array n ;; pret (List.map VInt64 vs) else tmismatch
@@ -644,23 +687,7 @@ Definition dec_col (ty : wire_type) (cty : N) (c : dec_ctx) (n : nat) : parser (
         m2 <== read_u8 ;;
         if negb (N.eqb m2 (wire_id WBool)) then pfail E_OCF_FORMAT else
         (* .map(|(position, rotation)| if chunk.read_u8().ok()? == 0 { None } else { Some(..) }): EOF gives None *)
-        fun b =>
-          (fix go (l : list (vec3 * mat3)) (b : bytes) : res (list value * bytes) :=
-             match l with
-             | [] => Ok ([], b)
-             | (p, r) :: rest =>
-                 match b with
-                 | [] => match go rest [] with
-                         | Ok (vs, b') => Ok (VOptionalCFrame None :: vs, b')
-                         | o => o
-                         end
-                 | x :: b1 => match go rest b1 with
-                              | Ok (vs, b') =>
-                                  Ok (VOptionalCFrame (if N.eqb x 0 then None else Some (mkCF p r)) :: vs, b')
-                              | o => o
-                              end
-                 end
-             end) (zip ps rots) b
+        fun b => Ok (ocf_values (zip ps rots) b)
       else tmismatch
   | WUniqueId =>
       if N.eqb cty VT_UniqueId then
